@@ -15,6 +15,7 @@ from asyncio import (
 from typing import TYPE_CHECKING, Any, NamedTuple, cast
 
 from ...pyutils.is_awaitable import is_awaitable
+from .work_queue import WorkResult, cancel_work
 
 if TYPE_CHECKING:
     from asyncio import Task
@@ -186,8 +187,41 @@ class StreamItemQueue:
 
         Cancels the producer and the pending item futures and returns an
         awaitable for the asynchronous part of the cleanup, or None when the
-        whole cleanup could be run synchronously.
+        whole cleanup could be run synchronously. The work carried by item
+        results that have completed, but not been delivered, is cancelled too.
         """
+        cleanup = self._abort(reason)
+        undelivered: list[Awaitable[Any]] = []
+        self._cancel_undelivered(reason, undelivered)
+        if not undelivered:
+            return cleanup
+        if is_awaitable(cleanup):
+            undelivered.append(cleanup)
+
+        async def settle_undelivered() -> None:
+            await gather(*undelivered, return_exceptions=True)
+
+        return settle_undelivered()
+
+    def _cancel_undelivered(
+        self, reason: BaseException | None, cancel_awaitables: list[Awaitable[Any]]
+    ) -> None:
+        """Cancel the work carried by completed, but undelivered item results."""
+        entries = self._entries
+        while True:
+            try:
+                entry = entries.get_nowait()
+            except QueueEmpty:
+                break
+            if isfuture(entry):
+                if not entry.done() or entry.cancelled() or entry.exception():
+                    continue
+                entry = entry.result()
+            if isinstance(entry, WorkResult):
+                cancel_work(entry.work, reason, cancel_awaitables)
+
+    def _abort(self, reason: BaseException | None = None) -> Awaitable[None] | None:
+        """Abort the producer and the pending item futures."""
         producer_task = self._producer_task
         running = producer_task is not None and not producer_task.done()
         parked = running and self._producer_parked and not self._producer_cancelled
@@ -255,6 +289,10 @@ class StreamItemQueue:
             self._producer_cancelled = True
             await gather(producer_task, return_exceptions=True)
         await self._settle_pending()
+        undelivered: list[Awaitable[Any]] = []
+        self._cancel_undelivered(reason, undelivered)
+        if undelivered:
+            await gather(*undelivered, return_exceptions=True)
         cleanup = self._run_on_abort(reason)
         if is_awaitable(cleanup):
             await cleanup
